@@ -31,6 +31,7 @@ TOp ==
   CASE E.op = "Open" ->
          IF ~E.same THEN Reject("C10-concurrent-open-different-connections", <<x>>)
          ELSE IF E.h # OpenResult(x) THEN Reject("C11-reopen-handle", <<x, E.h, OpenResult(x)>>) ELSE Go(Open(x))
+    [] E.op = "OpenLate" -> IF E.r # "refused" THEN Reject("C11-open-after-close", <<x, E.r>>) ELSE Go(OpenRefused(x))
     [] E.op = "Close" -> Go(CloseH(x))
     [] E.op = "Send" ->
          IF E.r = "lost" THEN Reject("C10-frame-lost", <<x>>)
